@@ -157,7 +157,10 @@ def run_suite(pid, suite, seed, n, tag="main", extra=None):
         cmd += extra
     rc, out, dt_h = sh(cmd, timeout=7200)
     if rc != 0:
-        return {"error": "harness failed", "log": out[-4000:], "dir": d}
+        what = "harness failed"
+        if rc < 0 or rc >= 128:
+            what = f"the harness process running the real crate crashed (exit status {rc}: signal / abort) - memory corruption or an abort inside the crate"
+        return {"error": what, "log": out[-4000:], "dir": d}
     rc, log = run_model_parallel(d)
     if rc != 0:
         return {"error": "lean driver failed", "log": log[-4000:], "dir": d}
